@@ -72,7 +72,7 @@ def _cases(draw, tier):
     if draw(st.integers(0, 9)) < 7:
         ast = draw(_EXPR_CLI if layer == 'cli' else _EXPR_API)
         return {'kind': 'wf', 'layer': layer, 'ast': ast, 'sp': draw(st.sampled_from(['', ' ', ' ', '  ', '\t'])),
-                'form': draw(st.integers(0, 4))}
+                'form': draw(st.integers(0, 6))}
     ast = draw(_EXPR_SMALL)
     toks = exprs.tokens_of(ast)
     nmut = draw(st.integers(1, 2))
@@ -189,7 +189,7 @@ def execute(case, ctx):
             got = _run_api(text)
             detail = {'text': text, 'expected': want, 'got': list(got)}
             cmpwant = want
-        elif case['form'] >= 3 and not any(c in text for c in '<>=!') and text.strip():
+        elif case['form'] in (3, 4) and not any(c in text for c in '<>=!') and text.strip():
             # as an operand of a conditional directive: evaluated by the preprocessor, compared as an integer
             got, src, res = _run_cond(text.strip(), case['form'], want)
             detail = {'text': text, 'expected': want, 'got': list(got), 'source': src, 'run': res.brief()}
